@@ -299,8 +299,13 @@ template <char C1, char C2, char C3, typename Make1, typename Make2, typename Ma
 void run3(char const *op, bool keeps, std::string const &shape, Make1 const &make1, Make2 const &make2, Make3 const &make3, Call const &call)
 {
   if (!wanted(op)) return;
-  reset(op, shape, std::string{C1, C2, C3});
+  if constexpr (!std::is_invocable_v<Call const &, decltype(as_cat<C1>(std::declval<decltype(make1()) &>())),
+                                     decltype(as_cat<C2>(std::declval<decltype(make2()) &>())),
+                                     decltype(as_cat<C3>(std::declval<decltype(make3()) &>()))>)
+    not_instantiable(op, shape, std::string{C1, C2, C3});
+  else
   {
+    reset(op, shape, std::string{C1, C2, C3});
     auto a = make1();
     auto b = make2();
     auto c = make3();
@@ -308,6 +313,39 @@ void run3(char const *op, bool keeps, std::string const &shape, Make1 const &mak
     decltype(auto) r = call(as_cat<C1>(a), as_cat<C2>(b), as_cat<C3>(c));
     end(r, {ids_of(a), ids_of(b), ids_of(c)});
   }
+}
+template <char C1, char C2, char C3, char C4, typename Make1, typename Make2, typename Make3, typename Make4, typename Call>
+void run4(char const *op, bool keeps, std::string const &shape, Make1 const &make1, Make2 const &make2, Make3 const &make3,
+          Make4 const &make4, Call const &call)
+{
+  if (!wanted(op)) return;
+  if constexpr (!std::is_invocable_v<Call const &, decltype(as_cat<C1>(std::declval<decltype(make1()) &>())),
+                                     decltype(as_cat<C2>(std::declval<decltype(make2()) &>())),
+                                     decltype(as_cat<C3>(std::declval<decltype(make3()) &>())),
+                                     decltype(as_cat<C4>(std::declval<decltype(make4()) &>()))>)
+    not_instantiable(op, shape, std::string{C1, C2, C3, C4});
+  else
+  {
+    reset(op, shape, std::string{C1, C2, C3, C4});
+    auto a = make1();
+    auto b = make2();
+    auto c = make3();
+    auto d = make4();
+    begin(op, keeps, {desc(C1, a), desc(C2, b), desc(C3, c), desc(C4, d)});
+    decltype(auto) r = call(as_cat<C1>(a), as_cat<C2>(b), as_cat<C3>(c), as_cat<C4>(d));
+    end(r, {ids_of(a), ids_of(b), ids_of(c), ids_of(d)});
+  }
+}
+// every combination of value categories of three / four positions
+template <typename F>
+void for_cats3(F const &f)
+{
+  for_cats<'r', 'l', 'c'>([&](auto c1) { for_cats<'r', 'l', 'c'>([&](auto c2) { for_cats<'r', 'l', 'c'>([&](auto c3) { f(c1, c2, c3); }); }); });
+}
+template <typename F>
+void for_cats4(F const &f)
+{
+  for_cats3([&](auto c1, auto c2, auto c3) { for_cats<'r', 'l', 'c'>([&](auto c4) { f(c1, c2, c3, c4); }); });
 }
 
 // ------------------------------------------------------------------ the harness's continuations
@@ -348,6 +386,33 @@ inline auto const pass_read = [](auto &&x)
   cb_scope const g{C05_RECV(x)};
   (void)x.value();
   return std::remove_cvref_t<decltype(x)>(C05_FWD(x));
+};
+
+// A BY-VALUE continuation parameter ([](T x) in user code): the parameter object is constructed from
+// whatever the library hands over - copied from an lvalue, MOVED from an rvalue (consuming it).  The
+// construction is the continuation's, so it is bracketed like the continuation's own copies.
+template <typename E>
+struct taken
+{
+  E value;
+  // NOLINTNEXTLINE(google-explicit-constructor)
+  taken(E const &x) : value((trk::emit("{\"e\":\"cb_enter\",\"recv\":[{\"obj\":" + std::to_string(x.raw().id) + ",\"cat\":\"clvalue\"}]}"), x))
+  {
+    trk::emit("{\"e\":\"cb_exit\"}");
+  }
+  // NOLINTNEXTLINE(google-explicit-constructor)
+  taken(E &&x) : value((trk::emit("{\"e\":\"cb_enter\",\"recv\":[{\"obj\":" + std::to_string(x.raw().id) + ",\"cat\":\"rvalue\"}]}"), std::move(x)))
+  {
+    trk::emit("{\"e\":\"cb_exit\"}");
+  }
+  taken(taken const &) = delete;
+  taken(taken &&) = delete;
+};
+// pass-through taking its argument by value
+inline auto const pass_by_value = [](taken<T> x)
+{
+  cb_scope const g{""};
+  return T(std::move(x.value));
 };
 
 // containers of n fresh elements
